@@ -36,7 +36,7 @@ TLoop == [name |-> "loop", kinds |-> <<"pass", "loop">>, edges |-> <<Src, Ed(1, 
 TUdf == [name |-> "udf", kinds |-> <<"pass", "udf", "sync">>, edges |-> <<Src, Ed(1, 2), Ed(2, 3)>>,
          outf |-> <<"all", "all", "all">>]
 
-MCTopos == {TInflux, TChain, TAlert, TAlertMid, TSync, TFork, TUnion}
+MCTopos == {TInflux, TChain, TAlert, TAlertMid, TSync, TFork, TUnion, TUdf}
 MCToposSmall == {TInflux, TAlert, TSync, TUnion}
 MCInfluxOnly == {TInflux, TChain, TFork}
 MCUnionOnly == {TUnion}
